@@ -298,6 +298,7 @@ func runC11(c *Ctx) {
 	c13UntrustedNames(c)
 	c11ArchiveLastWins(c)
 	c11RootsApplied(c)
+	c11BootstrapLenient(c)
 
 	// ---- (9) shared rules on the code this property runs through: the image-level --path/--exclude-path filter must
 	// not depend on map iteration order (R-MAPORDER of C02, on package bufimage), and the image writer must report a
@@ -965,7 +966,7 @@ func twoPassShape(info *types.Info, stmts []ast.Stmt) twoPass {
 	}
 	f1, p1 := ctorOf(info, first.Fun)
 	f2, p2 := ctorOf(info, second.Fun)
-	firstNil := len(first.Args) == 1 && isNilIdent(info, first.Args[0])
+	firstNil := len(first.Args) >= 1 && isNilIdent(info, first.Args[0]) // options may follow (discard-unknown for the resolver-less pass)
 	secondBoot := len(second.Args) >= 1 && bootVar != nil && identObj(info, second.Args[0]) == bootVar
 	same := (f1 != nil && f1 == f2) || (p1 != nil && p1 == p2)
 	sameData := identObj(info, um.Args[0]) != nil && identObj(info, um.Args[0]) == identObj(info, boot.Args[1])
